@@ -71,6 +71,25 @@ class Fragment:
         m = self._find(anchor, occ)
         return self.insert_at(m.end(), text)
 
+    def after_stmt(self, anchor, text, occ=1):
+        """Insert after the end (the depth-0 `;`) of the statement that starts with / contains `anchor`."""
+        m = self._find(anchor, occ)
+        toks = self._toks()
+        i = next((ix for ix, t in enumerate(toks) if t[1] >= m.start()), None)
+        j = i
+        while j is not None and j < len(toks):
+            k, s_, e_ = toks[j]
+            ch = self.orig[s_:e_]
+            if k == "punct" and ch in "([{":
+                j = match_close(self.orig, toks, j) + 1
+                continue
+            if k == "punct" and ch == ";":
+                return self.insert_at(e_, "\n" + text)
+            if k == "punct" and ch in ")]}":
+                break
+            j += 1
+        raise AnchorLost("%s: end of statement after %r not found" % (self.name, anchor))
+
     def replace(self, anchor, new, rule, occ=1, why=""):
         m = self._find(anchor, occ)
         return self.replace_span(m.start(), m.end(), new, rule, why)
@@ -169,6 +188,33 @@ class Fragment:
     def body_end(self, text):
         """Insert before the closing brace of the function (after the tail expression) -- rarely useful."""
         return self.insert_at(self._body_close_rel(), text)
+
+    def before_tail(self, text):
+        """Insert before the function's tail expression when it is a simple expression that follows a `;` or a block."""
+        toks = self._toks()
+        bo, bc = self._body_open_rel(), self._body_close_rel()
+        i = next(ix for ix, t in enumerate(toks) if t[1] == bo)
+        j = i + 1
+        last_boundary = bo + 1
+        while j < len(toks) and toks[j][1] < bc:
+            k, s_, e_ = toks[j]
+            ch = self.orig[s_:e_]
+            if k == "punct" and ch in "([":
+                j = match_close(self.orig, toks, j) + 1
+                continue
+            if k == "punct" and ch == "{":
+                j = match_close(self.orig, toks, j)
+                last_boundary = toks[j][2]
+                j += 1
+                continue
+            if k == "punct" and ch == ";":
+                last_boundary = e_
+            j += 1
+        rest = self.orig[last_boundary:bc]
+        if not rest.strip():
+            raise AnchorLost("%s: no simple tail expression" % self.name)
+        off = last_boundary + (len(rest) - len(rest.lstrip()))
+        return self.insert_at(off, text)
 
     def loops(self):
         """Return list of (kw, kw_off, body_open_off, body_close_off) for each loop in token order."""
